@@ -156,25 +156,16 @@ def hexec(variant="plain"):
     return build_harness(variant, files, "hexec")
 
 
-SHIM = """/* generated: %(name)s behind self-referential macros, so that every access to the two global index tables passes a
- * scheduling point (a macro's own name is not expanded again inside its expansion) */
-#include "instructions.h"
-extern void *sched_tbl(void *);
-#define instr_table_index (*(__typeof__(&instr_table_index))sched_tbl(&instr_table_index))
-#define opd_format_table_index (*(__typeof__(&opd_format_table_index))sched_tbl(&opd_format_table_index))
-#include "%(path)s"
-"""
-
-
 def sched():
-    """C18 scheduler harness: repo sources with -finstrument-functions; assemblyline.c and instr_parser.c through shims.
-    Returns (path, granularity note)."""
-    flags = ["-O1", "-finstrument-functions"]
+    """C18 scheduler harness: repo sources compiled with -finstrument-functions and -fsanitize=thread (compile only: the
+    __tsan_* entry points are implemented by harness/sched.c, which turns accesses to shared memory into scheduling
+    points).  Returns (path, granularity note)."""
+    flags = ["-O1", "-finstrument-functions", "-fsanitize=thread"]
     with Lock():
         srcs = repo_sources()
         hdrs = sorted(glob.glob(os.path.join(REPO, "src", "*.h"))) + [os.path.join(REPO, "config.h")]
         hs = [os.path.join(HARNESS, f) for f in ("sched.c", "c18_bodies.h")]
-        key = _hash(srcs + [h for h in hdrs if os.path.exists(h)] + hs, ("sched", flags, SHIM))
+        key = _hash(srcs + [h for h in hdrs if os.path.exists(h)] + hs, ("sched2", flags))
         out = os.path.join(BUILD, "sched-%s" % key)
         binp = os.path.join(out, "sched")
         note = os.path.join(out, "granularity")
@@ -183,30 +174,16 @@ def sched():
         tmp = out + ".%d.tmp" % os.getpid()
         shutil.rmtree(tmp, ignore_errors=True)
         os.makedirs(tmp)
-        gran = "function entry/exit + every access to the global index tables"
+        gran = ("function entry/exit, every atomic operation, every load/store of writable global data, every "
+                "mmap/munmap/mremap/pthread_once/mutex call of the library")
         objs = []
         for s in srcs:
-            base = os.path.basename(s)
-            o = os.path.join(tmp, base[:-2] + ".o")
-            src = s
-            if base in ("assemblyline.c", "instr_parser.c"):
-                src = os.path.join(tmp, "shim_" + base)
-                with open(src, "w") as f:
-                    f.write(SHIM % {"name": base, "path": s})
-            r = subprocess.run(["gcc"] + COMMON + flags + ["-c", src, "-o", o], stdout=subprocess.PIPE, stderr=subprocess.STDOUT,
-                               text=True)
-            if r.returncode != 0 and src != s:
-                # the tables were renamed or restructured: fall back to function granularity for this file
-                gran = "function entry/exit only (table shim failed to compile for %s)" % base
-                r = subprocess.run(["gcc"] + COMMON + flags + ["-c", s, "-o", o], stdout=subprocess.PIPE, stderr=subprocess.STDOUT,
-                                   text=True)
-            if r.returncode != 0:
-                sys.stderr.write("BUILD FAILED compiling %s:\n%s\n" % (s, r.stdout[-3000:]))
-                shutil.rmtree(tmp, ignore_errors=True)
-                raise SystemExit(2)
+            o = os.path.join(tmp, os.path.basename(s)[:-2] + ".o")
+            _run(["gcc"] + COMMON + flags + ["-c", s, "-o", o], "sched: " + os.path.basename(s))
             objs.append(o)
         _run(["gcc"] + COMMON + ["-O1", os.path.join(HARNESS, "sched.c")] + objs + ["-o", os.path.join(tmp, "sched"), "-pthread",
-              "-Wl,--wrap=pthread_once,--wrap=call_once,--wrap=pthread_mutex_lock,--wrap=pthread_mutex_unlock"], "sched")
+              "-Wl,--wrap=pthread_once,--wrap=call_once,--wrap=pthread_mutex_lock,--wrap=pthread_mutex_unlock,"
+              "--wrap=mmap,--wrap=munmap,--wrap=mremap"], "sched")
         with open(os.path.join(tmp, "granularity"), "w") as f:
             f.write(gran)
         shutil.rmtree(out, ignore_errors=True)
@@ -216,7 +193,7 @@ def sched():
 
 
 def c18_tsan():
-    return build_harness("tsan", ["c18_tsan.c"], "c18_tsan")
+    return build_harness("tsan", ["c18_tsan.c"], "c18_tsan", extra_link=("-Wl,--wrap=mremap",))
 
 
 def c09_enum(variant="asanabort"):
